@@ -84,9 +84,9 @@ func SpecEofIdx(lines [][]byte, i int) int {
 //@   ensures check-never-writes: implies(checkOnly, fsWrites() == old(fsWrites()))
 //@   ensures at-most-one-write: fsWrites() <= old(fsWrites())+1
 //@   ensures writes-own-path: implies(fsWrites() > old(fsWrites()), lastWritePath() == filePath)
-//@   ensures writes-renumbered-bytes: implies(fsWrites() > old(fsWrites()), called(processYaml) && lastWriteData() == resultOf(processYaml, 0) && lastRead() != resultOf(processYaml, 0))
-//@   ensures check-verdict: implies(checkOnly && called(processYaml) && resultOf(processYaml, 1) == nil, (r != nil) == (lastRead() != resultOf(processYaml, 0)))
-//@   ensures write-iff-changed: implies(!checkOnly && called(processYaml) && resultOf(processYaml, 1) == nil && r == nil, (fsWrites() > old(fsWrites())) == (lastRead() != resultOf(processYaml, 0)))
+//@   checks writes-renumbered-bytes: implies(fsWrites() > old(fsWrites()), called(processYaml) && lastWriteData() == resultOf(processYaml, 0) && lastRead() != resultOf(processYaml, 0))
+//@   checks check-verdict: implies(checkOnly && called(processYaml) && resultOf(processYaml, 1) == nil, (r != nil) == (lastRead() != resultOf(processYaml, 0)))
+//@   checks write-iff-changed: implies(!checkOnly && called(processYaml) && resultOf(processYaml, 1) == nil && r == nil, (fsWrites() > old(fsWrites())) == (lastRead() != resultOf(processYaml, 0)))
 
 // ---- functional specification of the renumbering of one file ----------------------
 // The n-th line matched by TestIdRegex gets the number n, the n-th line matched by
